@@ -280,7 +280,16 @@ func (e *c01Eval) block(stmts []ast.Stmt, variant string) (bool, error) {
 			}
 			return true, nil
 		case *ast.RangeStmt:
+			texts := []string{}
+			assigned := false // the loop records something in a map (`m[k] = v`)
 			for _, b := range s.Body.List {
+				if as, ok := b.(*ast.AssignStmt); ok {
+					for _, l := range as.Lhs {
+						if _, ok := l.(*ast.IndexExpr); ok {
+							assigned = true
+						}
+					}
+				}
 				ifs, ok := b.(*ast.IfStmt)
 				if !ok {
 					continue
@@ -290,7 +299,21 @@ func (e *c01Eval) block(stmts []ast.Stmt, variant string) (bool, error) {
 					if ifs.Init != nil {
 						txt = e.src(ifs.Init) + "; " + txt
 					}
-					e.cur.checks = append(e.cur.checks, "range: "+txt)
+					texts = append(texts, txt)
+				}
+			}
+			switch {
+			case assigned && len(texts) == 2 && texts[0] == "_, ok := aggs[a.Name]; ok" && texts[1] == "a.GetAggregation() == nil":
+				// the loop over the aggregations as it is today: a name seen before is an error, an
+				// aggregation without a type is an error, the name is recorded
+				e.cur.checks = append(e.cur.checks, "aggregations: names recorded, no type rejected")
+			case !assigned:
+				for _, t := range texts {
+					e.cur.checks = append(e.cur.checks, "range: "+t)
+				}
+			default:
+				for _, t := range texts {
+					e.cur.checks = append(e.cur.checks, "range (map filled): "+t)
 				}
 			}
 		case *ast.ExprStmt, *ast.DeclStmt:
@@ -314,6 +337,8 @@ func c01Check(txt string) string {
 		return ".reservedName"
 	case "range: _, ok := aggs[a.Name]; ok":
 		return ".deadLoop"
+	case "aggregations: names recorded, no type rejected":
+		return ".aggNames"
 	}
 	return ".unrecognised"
 }
